@@ -59,6 +59,20 @@ def _nontrivial(feats, d):
     return bool(feats & keys) or d >= 3
 
 
+def _failed_generation():
+    from jaqalpaq.core.circuitbuilder import CircuitBuilder
+
+    cb = CircuitBuilder()
+    r = cb.register("zq", 2)
+    cb.let("zl", 4)
+    cb.gate("zg", r[0], 0.25)
+    cb.gate("zh", r[1], 1 + 2j)  # complex: not a Jaqal number
+    try:
+        generate(cb.build())
+    except Exception:  # noqa: BLE001 - whatever it raises for a value outside Jaqal is not judged
+        pass
+
+
 def roundtrip(case, mode):
     prog = case["prog"]
     text = render.to_text(prog)
@@ -79,6 +93,10 @@ def roundtrip(case, mode):
         d1 = ex.declarations()
     except extract.ExtractError:
         raise Skip()
+    if len(text) % 7 == 0:
+        # a generation that FAILS (a hand-made circuit with a value that has no Jaqal spelling)
+        # must leave nothing behind for the next one
+        _failed_generation()
     st_, t1 = guard(generate, c, what="generate")
     if st_ == "err":
         raise Violation("generate-raised", f"{t1}\n--- program:\n{text}", where=type(t1).__name__)
